@@ -352,17 +352,25 @@ func (dsc *dataStoreCommand) getKeyUnlocked(keyName string) (val string, exists 
 }
 
 func (dsc *dataStoreCommand) getKeyBytes(keyName string) (val []byte, exists valueExists) {
-	sk, objExists := dsc.getKeyObject(keyName)
+	dsc.lock()
+	defer dsc.unlock()
+
+	sk, objExists := dsc.getKeyObjectUnlocked(keyName)
 	if !objExists {
 		exists = VALUE_DOESNT_EXIST
 		return
 	}
 
-	val = sk.getStringBytes()
-	if val == nil {
+	strBytes := sk.getStringBytes()
+	if strBytes == nil {
 		exists = VALUE_WRONG_TYPE
 		return
 	}
+
+	// the caller works on the value after the lock is released, while bit
+	// operations modify stored strings in place: hand out a copy
+	val = make([]byte, len(strBytes))
+	copy(val, strBytes)
 	return
 }
 
@@ -1000,7 +1008,10 @@ func (dsc *dataStoreCommand) expire(keyName string, expiration time.Time, nx, xx
 }
 
 func (dsc *dataStoreCommand) expireTime(keyName string) (expiration time.Time, valid int) {
-	sk, exists := dsc.getKeyObject(keyName)
+	dsc.lock()
+	defer dsc.unlock()
+
+	sk, exists := dsc.getKeyObjectUnlocked(keyName)
 	if !exists {
 		valid = -2
 		return
